@@ -202,7 +202,10 @@ func Open(ctx context.Context, S3 S3Interface, cfg Config, opts OpenOptions, whe
 	persists := []mast.Persist{rootPersist}
 	if opts.OnlyVersions != nil {
 		versionsToLoad = opts.OnlyVersions
-		persists = []mast.Persist{mergedPersist, rootPersist}
+		// current/ first: a commit retires a version by writing it to
+		// merged/ and then deleting it from current/, so looking in merged/
+		// first can miss it in both places.
+		persists = []mast.Persist{rootPersist, mergedPersist}
 		skipUnreadable = false
 	} else {
 		versionsToLoad, err = listRoots(ctx, S3, rootPersist)
